@@ -132,6 +132,26 @@ pub fn all_operations() {
             b.m.commit(None).expect("commit b");
             a.pull(&b);
         }
+        7 => {
+            // a block whose parent is missing sits in a's storage (held back by the first refresh)
+            b.m.update(any_doc(k, 0)).expect("update b");
+            b.m.commit(None).expect("commit b");
+            let mid = b.ad.read().unwrap().list_objects("").unwrap();
+            b.m.update(doc_with(&["c"], &["z".to_string()], "u")).expect("update b");
+            b.m.commit(None).expect("commit b");
+            {
+                let src = b.ad.read().unwrap();
+                for f in src.list_objects("").unwrap() {
+                    if !mid.contains(&f) {
+                        a.ad.write().unwrap().write_object(&f, &src.read_object(&f, 0, 0).unwrap()).unwrap();
+                    }
+                }
+            }
+            a.m.refresh().expect("refresh with a block whose parent is missing");
+            // the block is still held back when the next refresh starts
+            a.m.refresh().expect("second refresh with a held-back block");
+            let _ = a.m.read(None);
+        }
         _ => {
             // after time travel to the first block
             a.m.update(any_doc(k, 0)).expect("update");
